@@ -132,6 +132,84 @@ theorem FM_UNCLOSED_FIX (text : Str) (F : Str → Str) (hcr : '\r' ∉ text)
     rw [h2]
     simp [ensureFinalNl, List.getLast?_append]
 
+/-- the split of a text that, after CRLF → LF, is a delimited block written line by line followed by `body` -/
+theorem split_block (text o c : Str) (mid : List Str) (body : Str)
+    (ht : replaceCRLF text = unlines (o :: mid ++ [c]) ++ body)
+    (ho : isDelim o = true) (hc : isDelim c = true)
+    (hnl : ∀ l ∈ o :: mid ++ [c], '\n' ∉ l)
+    (hmid : ∀ l ∈ mid, isDelim l = false) :
+    splitFrontmatterLines (fmLines text)
+      = .closed (o :: mid ++ [c]) (popEmptyLast (pySplitNl body)) := by
+  rw [fmLines_eq_pop, ht, pySplitNl_unlines _ _ hnl,
+    popEmptyLast_append _ _ (by unfold pySplitNl; exact splitNl_ne_nil body [])]
+  unfold splitFrontmatterLines
+  have hb : isBlank o = false := not_blank_of_delim ho
+  simp only [List.cons_append, List.dropWhile_cons, hb, Bool.false_eq_true, if_false, ho, if_true]
+  rw [List.append_assoc, List.singleton_append, findClose_append mid c _ [] hmid hc]
+  simp
+
+/-- FM_EXACT_STRING (the property's first sentence, at string level): if the document — after CRLF → LF,
+the one rewriting the property allows — is a block `o⏎ mid… ⏎c⏎` whose first and last lines are `---`
+lines and whose inner lines are not, followed by any `body`, then the frontmatter handed back is that
+block **character for character** (every other character, including lone CR, U+2028, form feeds, trailing
+spaces of the delimiter lines, is kept; nothing else is a line end), and the content is `body`, at most
+shortened by its final newline. -/
+theorem FM_EXACT_STRING (text o c : Str) (mid : List Str) (body : Str)
+    (ht : replaceCRLF text = unlines (o :: mid ++ [c]) ++ body)
+    (ho : isDelim o = true) (hc : isDelim c = true)
+    (hnl : ∀ l ∈ o :: mid ++ [c], '\n' ∉ l)
+    (hmid : ∀ l ∈ mid, isDelim l = false) :
+    ∃ content, splitFrontmatter text = (unlines (o :: mid ++ [c]), content) ∧
+      (content = body ∨ content ++ ['\n'] = body) := by
+  refine ⟨joinWith ['\n'] (popEmptyLast (pySplitNl body)), ?_, join_popped body⟩
+  unfold splitFrontmatter
+  rw [split_block text o c mid body ht ho hc hnl hmid]
+  simp only
+  rw [List.cons_append, joinWith_unlines]
+
+/-- a written-out block has at least two delimiter lines (so `fill_markdown`'s unclosed test does not fire) -/
+theorem delimCount_block (o c : Str) (mid : List Str) (ho : isDelim o = true) (hc : isDelim c = true)
+    (hnl : ∀ l ∈ o :: mid ++ [c], '\n' ∉ l) : 2 ≤ delimCount (unlines (o :: mid ++ [c])) := by
+  unfold delimCount
+  have := pySplitNl_unlines (o :: mid ++ [c]) [] hnl
+  rw [List.append_nil] at this
+  rw [this]
+  simp only [List.cons_append, List.filter_cons, ho, if_true, List.filter_append, hc, List.length_cons,
+    List.length_append]
+  omega
+
+/-- FM_INDEP (the property's equation `format(frontmatter + body) = frontmatter + format(body)`), for every
+formatter `F` of the body that does not depend on one final newline (Marko's does not: the body is stripped
+first — `fill_markdown` hands `F` the text before `strip`), and every body that does not itself open with a
+`---` line (see known finding C07-body-starts-with-dashes for that case). -/
+theorem FM_INDEP (text o c : Str) (mid : List Str) (body : Str) (F : Str → Str)
+    (ht : replaceCRLF text = unlines (o :: mid ++ [c]) ++ body)
+    (ho : isDelim o = true) (hc : isDelim c = true)
+    (hnl : ∀ l ∈ o :: mid ++ [c], '\n' ∉ l)
+    (hmid : ∀ l ∈ mid, isDelim l = false)
+    (hF : ∀ s, F (s ++ ['\n']) = F s)
+    (hb : splitFrontmatterLines (fmLines body) = .none) :
+    fillShell F text = unlines (o :: mid ++ [c]) ++ fillShell F body := by
+  obtain ⟨content, hs, hcont⟩ := FM_EXACT_STRING text o c mid body ht ho hc hnl hmid
+  rw [(FM_NONE body hb F).2]
+  have hne : (unlines (o :: mid ++ [c])).isEmpty = false := by simp [unlines]
+  have hcnt := delimCount_block o c mid ho hc hnl
+  unfold fillShell
+  rw [hs]
+  simp only [hne, Bool.false_eq_true, if_false]
+  have h2 : ¬ (delimCount (unlines (o :: mid ++ [c])) < 2) := by omega
+  simp only [h2, decide_false, Bool.and_false, Bool.false_eq_true, if_false]
+  rcases hcont with rfl | rfl
+  · rfl
+  · rw [hF]
+
+/-- non-vacuity of FM_EXACT_STRING / FM_INDEP: CRLF input, a lone CR, U+2028 and trailing blanks inside the block -/
+example : ∃ content, splitFrontmatter "--- \r\na: 1\u2028b\rc\n---\nbody\n".toList
+      = (unlines ["--- ".toList, "a: 1\u2028b\rc".toList, "---".toList], content) ∧
+      (content = "body\n".toList ∨ content ++ ['\n'] = "body\n".toList) :=
+  FM_EXACT_STRING _ "--- ".toList "---".toList ["a: 1\u2028b\rc".toList] "body\n".toList
+    (by decide) (by decide) (by decide) (by decide) (by decide)
+
 /-- non-vacuity and the repaired regression: `---\nfoo: bar\n` is a fixed point of the shell. -/
 example : fillShell (fun _ => ['\n']) "---\nfoo: bar\n".toList = "---\nfoo: bar\n".toList := by decide
 example : fillShell (fun _ => ['\n']) "---\nfoo: bar".toList = "---\nfoo: bar\n".toList := by decide
